@@ -83,6 +83,12 @@ fn exec(pool: &Pool<UObj>, sh: &Sh, tasks: &mut HashMap<String, UTask>, step: &V
             }
         }
         "cancel" => { let f = t.fut.take().expect("no future"); if catch_unwind(AssertUnwindSafe(move || drop(f))).is_ok() { json!(["cancelled"]) } else { json!(["panic"]) } }
+        "drop" if a.get(3).and_then(|x| x.as_str()) == Some("unwinding") => {
+            // the holder of the object panics: the Object is dropped while its thread unwinds (std::thread::panicking() is true in Drop)
+            let o = t.objs.remove(a[2].as_u64().unwrap() as usize);
+            let _ = catch_unwind(AssertUnwindSafe(move || { let _held = o; panic!("scripted panic of the caller that holds an object") }));
+            json!(["ok"])
+        }
         "drop" => { let o = t.objs.remove(a[2].as_u64().unwrap() as usize); if catch_unwind(AssertUnwindSafe(move || drop(o))).is_ok() { json!(["ok"]) } else { json!(["panic"]) } }
         "take" => { let o = t.objs.remove(a[2].as_u64().unwrap() as usize);
             let r = catch_unwind(AssertUnwindSafe(|| { let raw = Object::take(o); ev(sh, json!(["handed", format!("obj:{}", raw.id), "take"])); drop(raw); }));
